@@ -109,8 +109,7 @@ theorem removeWorker_safe {s s' : State} {w : Nat} {reason : String} {f : Bool} 
           split at hp1
           · cases hp1
           · rename_i hperm
-            simp only [Bool.not_eq_true, Bool.not_eq_false, Bool.and_eq_true, Bool.not_eq_eq_eq_not, Bool.not_true,
-              Bool.not_false] at hperm
+            simp only [Bool.not_eq_false, Bool.and_eq_true, Bool.not_eq_eq_eq_not, Bool.not_true] at hperm
             split at hp1
             · cases hp1
             · rename_i s01 hlp
@@ -127,7 +126,7 @@ theorem removeWorker_safe {s s' : State} {w : Nat} {reason : String} {f : Bool} 
                 have hidA : id ∈ A := by
                   have h1 : order.all A.contains = true := by
                     have := hperm
-                    simp only [Bool.and_eq_true, decide_eq_true_eq] at this
+                    simp only [decide_eq_true_eq] at this
                     exact this.1.1
                   exact mem_of_all_contains h1 id hid
                 obtain ⟨st, h1, h2⟩ := hi.ls.a1 w id (by rw [hA]; exact hidA)
